@@ -7,6 +7,7 @@ import (
 	"go/token"
 	"reflect"
 	"sort"
+	"strconv"
 	"strings"
 
 	"github.com/uber-go/gopatch/verif/ref"
@@ -413,6 +414,39 @@ func Mutate(t *rapid.T, m *Mined, inst *Instance, label string) string {
 			return
 		}
 		tn := v.Type().Name()
+		// the same children in another optional slot: s[i:] / s[:i],
+		// for init; ; {} / for ; ; post {}
+		switch tn {
+		case "SliceExpr":
+			lo, hi := v.FieldByName("Low"), v.FieldByName("High")
+			if lo.IsNil() != hi.IsNil() && !v.FieldByName("Slice3").Bool() {
+				add("SliceExpr.Low:shift", func() {
+					l, h := reflect.ValueOf(lo.Interface()), reflect.ValueOf(hi.Interface())
+					if lo.IsNil() {
+						lo.Set(h)
+						hi.Set(reflect.Zero(hi.Type()))
+					} else {
+						hi.Set(l)
+						lo.Set(reflect.Zero(lo.Type()))
+					}
+				})
+			}
+		case "ForStmt":
+			in, po := v.FieldByName("Init"), v.FieldByName("Post")
+			if in.IsNil() != po.IsNil() {
+				add("ForStmt.Init:shift", func() {
+					if in.IsNil() {
+						if _, isAssign := po.Interface().(*ast.AssignStmt); !isAssign || po.Interface().(*ast.AssignStmt).Tok != token.DEFINE {
+							in.Set(reflect.ValueOf(po.Interface()))
+							po.Set(reflect.Zero(po.Type()))
+						}
+					} else if a, isAssign := in.Interface().(*ast.AssignStmt); !isAssign || a.Tok != token.DEFINE {
+						po.Set(reflect.ValueOf(in.Interface()))
+						in.Set(reflect.Zero(in.Type()))
+					}
+				})
+			}
+		}
 		for i := 0; i < v.NumField(); i++ {
 			f := v.Type().Field(i)
 			if !f.IsExported() {
@@ -458,6 +492,10 @@ func Mutate(t *rapid.T, m *Mined, inst *Instance, label string) string {
 					case token.STRING:
 						if strings.HasPrefix(val, "\"") {
 							add(tag+":string", func() { fv.SetString("\"z" + val[1:]) })
+						}
+						// the same string in another spelling: another token
+						if re := respell(val); re != "" {
+							add(tag+":respell", func() { fv.SetString(re) })
 						}
 					case token.CHAR:
 						add(tag+":char", func() { fv.SetString("'\\x7f'") })
@@ -601,6 +639,23 @@ func Mutate(t *rapid.T, m *Mined, inst *Instance, label string) string {
 	c := cs[rapid.IntRange(0, len(cs)-1).Draw(t, label+"mutCell")]
 	c.apply()
 	return c.tag
+}
+
+// respell writes an interpreted string literal in another way that denotes
+// the same string: its first character as an escape, or the whole as a raw
+// string. It returns "" if neither is possible.
+func respell(lit string) string {
+	val, err := strconv.Unquote(lit)
+	if err != nil || val == "" {
+		return ""
+	}
+	if !strings.ContainsAny(val, "`\r") && !strings.ContainsAny(lit, "\\") && len(val)%2 == 0 {
+		return "`" + val + "`"
+	}
+	if c := lit[1]; c != '\\' && c < 0x80 {
+		return fmt.Sprintf("\"\\x%02x%s", c, lit[2:])
+	}
+	return ""
 }
 
 // rapidIdx cannot draw inside closures that run after the draw phase, so the
